@@ -64,7 +64,7 @@ def task(args):
 def main():
     kind = sys.argv[1]
     want = sys.argv[2:]
-    dirs = [d for d in sorted(glob.glob(os.path.join(VERIF, kind, "*")))
+    dirs = [d for d in sorted(glob.glob(os.path.join(os.environ.get("KIND_ROOT", os.path.join(VERIF, kind)), "*")))
             if not want or any(os.path.basename(d).startswith(w) for w in want)]
     tasks, noapply = [], []
     for d in dirs:
